@@ -11,8 +11,9 @@ cd $wt
 {
 echo "== suite with the change"; cargo nextest run --workspace --no-fail-fast --offline 2>&1 | grep -E "FAIL|Summary" | sort -u
 echo "== demo with the change (must fail)"; bash -c "$demo" 2>&1 | tail -6; echo "rc=$?"
-git stash -q -- $(git diff --name-only); echo "== demo without the change (must pass)"; bash -c "$demo" 2>&1 | tail -6; 
-git stash pop -q
+# (no git stash: refs/stash is shared by all worktrees of /repo)
+git apply -R $out/patch.diff; echo "== demo without the change (must pass)"; bash -c "$demo" 2>&1 | tail -6; 
+git apply $out/patch.diff
 echo "== restored: $(git diff --stat | tail -1)"
 } > $out/confirm.log 2>&1
 tail -25 $out/confirm.log
